@@ -240,13 +240,19 @@ def fresh_index(ex, shape, base="ix"):
     return idx
 
 
+def expand_ellipsis(idxs, ndim):
+    for k, i in enumerate(idxs):
+        if isinstance(i, VLib) and i.name == "builtins.Ellipsis":
+            fill = ndim - (len(idxs) - 1)
+            return idxs[:k] + [VSlice(NONE, NONE, NONE)] * max(fill, 0) + idxs[k + 1:]
+    return idxs
+
+
 def arr_getitem(ex, obj, idx):
     c = cell(ex, obj)
     if ex.is_arr(idx):                      # boolean mask read: a[mask] -> 1-D selection (abstract)
         raise Unsupported("boolean-mask read")
-    idxs = list(idx.items) if isinstance(idx, VTuple) else [idx]
-    if any(isinstance(i, VLib) and i.name == "builtins.Ellipsis" for i in idxs):
-        raise Unsupported("Ellipsis index")
+    idxs = expand_ellipsis(list(idx.items) if isinstance(idx, VTuple) else [idx], len(c.shape))
     if len(idxs) > len(c.shape):
         ex.throw("IndexError", "too many indices for array")
     # pad with full slices
@@ -373,7 +379,7 @@ def arr_setitem(ex, obj, idx, val):
         v = cast_elem(ex, val, c.dtype)
         write_elem(ex, obj, lambda ix, old=old, m=m: ite_val(z_bool(m.elem(ix).v), v, old(ix)))
         return
-    idxs = list(idx.items) if isinstance(idx, VTuple) else [idx]
+    idxs = expand_ellipsis(list(idx.items) if isinstance(idx, VTuple) else [idx], len(c.shape))
     if len(idxs) > len(c.shape):
         ex.throw("IndexError", "too many indices for array")
     idxs = idxs + [VSlice(NONE, NONE, NONE)] * (len(c.shape) - len(idxs))
@@ -1143,3 +1149,31 @@ def _select_any(items, i):
             raise Unsupported("symbolic index into an array of strings")
         i = i.as_long()
     return items[i]
+
+
+@npfn("numpy.power")
+def _power(ex, args, kwargs, fr):
+    a, b = args[0], args[1]
+    if is_num(a) and ex.is_arr(b):
+        c = cell(ex, b)
+        el = c.elem
+        return new_array(ex, c.shape, VDtype("float64"), lambda ix: arith(ex.cfg, ast.Pow(), a if isinstance(a, VFloat) else VFloat(float(a.v)) if is_conc(a.v) else a, el(ix)))
+    if is_num(a) and is_num(b):
+        return arith(ex.cfg, ast.Pow(), a if isinstance(a, VFloat) else (VFloat(float(a.v)) if is_conc(a.v) else a), b)
+    raise Unsupported("np.power with these operands")
+
+
+@npfn("math.log10", "numpy.log10")
+def _log10(ex, args, kwargs, fr):
+    return ufunc1(ex, "log10", args[0])
+
+
+@npfn("ndarray.tolist")
+def _tolist(ex, args, kwargs, fr):
+    c = cell(ex, args[0])
+    if len(c.shape) == 1 and is_conc(c.shape[0]):
+        return ex.st.alloc(HList([c.elem((z3.IntVal(i),)) for i in range(c.shape[0])]))
+    if len(c.shape) == 1 and z3.is_int_value(z3.simplify(z_int(c.shape[0]))):
+        n = z3.simplify(z_int(c.shape[0])).as_long()
+        return ex.st.alloc(HList([c.elem((z3.IntVal(i),)) for i in range(n)]))
+    raise Unsupported("tolist of an array of symbolic length")
